@@ -73,4 +73,11 @@ def stages(tier, rng, only=None):
             c["bench"] = 1
         return cs
     out.append(ac.stage("bench_mode", PID, bench, _nt))
+    # penalties in tenths (0.3, 0.2, 0.7: not dyadic): input rankings that tie exactly in tenths must still all be returned
+    tenths = [([0, 10, 3, 0, 10, 3], [3, 3, 0, 3, 3, 0], 10), ([0, 10, 2, 0, 10, 2], [2, 2, 0, 2, 2, 0], 10),
+              ([0, 10, 7, 0, 10, 7], [7, 7, 0, 7, 7, 0], 10), ([0, 10, 3, 0, 10, 0], [3, 3, 0, 3, 3, 0], 10),
+              ([0, 10, 10, 0, 0, 0], [3, 3, 0, 0, 0, 0], 10)]
+    out.append(ac.stage("tenths", PID, lambda: ac.cases(
+        grids.datasets(3, 2)[::3] + [ac.split_votes(rng, ties=True, m=rng.randint(3, 6)) for _ in range(n_rand // 2)]
+        + [ac.tied_heavy_dataset(rng) for _ in range(n_rand // 4)], ["PickAPerm"], tenths, flags=(0,), all_schemes=True), _nt))
     return [s for s in out if not only or s.name == only]
